@@ -82,6 +82,10 @@ def configs(tier: str):
     # metadata only
     for mode, closure, msgs in itertools.product(("ack", "unack"), (False, True), ("none", "plain", "both")):
         add(md_only=True, mode=mode, closure=closure, msgs=msgs, size=0)
+    # two consecutive transactions on the same pair of handlers; the second one overrides mode / closure in its request
+    for (mode, closure), (m2, c2), size in itertools.product((("ack", False), ("unack", True), ("unack", False)),
+                                                             (("ack", False), ("unack", True), ("unack", False)), (0, L + 1)):
+        add(mode=mode, closure=closure, size=size, tx2=dict(req_mode=m2, req_closure=c2))
     # zero-filled content
     for mode in ("ack", "unack"):
         add(mode=mode, closure=True, size=L + 1, zero=True)
@@ -106,7 +110,7 @@ def configs(tier: str):
     # de-duplicate
     seen, uniq = set(), []
     for kw in out:
-        k = tuple(sorted(kw.items(), key=lambda kv: kv[0]))
+        k = repr(sorted(kw.items(), key=lambda kv: kv[0]))
         if k not in seen:
             seen.add(k)
             uniq.append(kw)
